@@ -62,6 +62,32 @@ func Main(args []string) int {
 		return cmdVerify(args[1:])
 	case "check":
 		return cmdCheck(args[1:])
+	case "query":
+		// query <tags> <func regexp> <obligation substring>: print the SMT query of one obligation
+		P, err := Load(RepoDir, args[1])
+		if err != nil {
+			fmt.Fprintln(os.Stderr, err)
+			return 2
+		}
+		db, err := LoadSpecs()
+		if err != nil {
+			fmt.Fprintln(os.Stderr, err)
+			return 2
+		}
+		re := regexp.MustCompile(args[2])
+		for _, k := range P.SortedFuncKeys() {
+			if !re.MatchString(k) {
+				continue
+			}
+			r := GenFunc(P, db, P.Funcs[k], db.Funcs[k])
+			for _, o := range r.Obls {
+				if strings.Contains(o.Name, args[3]) {
+					fmt.Print(r.Query(o, false))
+					return 0
+				}
+			}
+		}
+		return 1
 	case "replay":
 		b, err := os.ReadFile(args[1])
 		if err != nil {
@@ -119,6 +145,9 @@ func cmdVerify(args []string) int {
 			}
 		}
 	}
+	if fs.Arg(0) == "lemmas" {
+		rs = LemmaObligations("")
+	}
 	dir := *keep
 	if dir == "" {
 		dir, _ = os.MkdirTemp("", "vcheck-")
@@ -128,7 +157,8 @@ func cmdVerify(args []string) int {
 	}
 	stats := &SolveStats{BySolver: map[string]int{}}
 	t0 := time.Now()
-	Discharge(rs, dir, *timeout, 16, stats)
+	Discharge(rs, dir, *timeout, 12, stats)
+	Retry(rs, dir, 3**timeout, stats)
 	bad := 0
 	for _, r := range rs {
 		if r.Skipped != "" {
